@@ -359,6 +359,46 @@ theorem counter_auto_increment (w E v lv : Nat) (chk : Bool) (hw : 0 < w) (h1 : 
     (counterStep ⟨w, chk, true⟩ v ⟨false, false, false, lv, E - 1⟩).next = (v + 1) % E :=
   counterStep_auto w E v lv chk hw h1 h2 hchk hv
 
+/-- **The whole `Counter` API as usage patterns.**  For every subset `u` of {`inc`, `dec`, `reset`, `load`} that the user logic ever
+calls on an instance (16 patterns, including none = free-running and `dec` only = pure down counter), every placement order of
+`load`/`reset`, every width, limit `1 ≤ E ≤ 2^w` (power of two or not), reset value and start value below `E`, and every history
+of per-cycle call conditions with loaded values below `E`: the register follows the API definition `apiRun` and stays in `[0, E)`. -/
+theorem counter_api_history (w E rv : Nat) (chk : Bool) (u : CounterUse) (resetLast : Bool)
+    (hw : 0 < w) (h1 : 1 ≤ E) (h2 : E ≤ 2 ^ w) (hchk : chk = false → E = 2 ^ w) (hrv : rv < E)
+    (hist : List CounterCalls) (v : Nat) (hv : v < E) (hl : ∀ c ∈ hist, c.lv < E) :
+    counterApiRun w chk u resetLast rv (E - 1) v hist = apiRun E rv u resetLast v hist ∧ apiRun E rv u resetLast v hist < E :=
+  counterApiRun_eq w E rv chk u resetLast hw h1 h2 hchk hrv hist v hv hl
+
+/-- each call has its definition (consequences of `apiStep`, for any value `v < E`): -/
+theorem counter_api_free_running (E rv v : Nat) (u : CounterUse) (rl : Bool) (c : CounterCalls)
+    (hu : u.inc = false ∧ u.dec = false) (hc : (u.load && c.load) = false ∧ (u.reset && c.reset) = false) :
+    apiStep E rv u rl v c = (v + 1) % E := by
+  simp [apiStep, wrapStep, hu.1, hu.2, hc.1, hc.2]
+
+/-- a counter on which `dec()` (but never `inc()`) is called is a pure down counter: it holds when nothing is requested … -/
+theorem counter_api_dec_only_holds (E rv v : Nat) (u : CounterUse) (rl : Bool) (c : CounterCalls)
+    (hu : u.inc = false ∧ u.dec = true) (hc : c.dec = false ∧ (u.load && c.load) = false ∧ (u.reset && c.reset) = false) :
+    apiStep E rv u rl v c = v := by
+  simp [apiStep, wrapStep, hu.1, hu.2, hc.1, hc.2.1, hc.2.2]
+
+/-- … and steps down modulo `E` on request -/
+theorem counter_api_dec (E rv v : Nat) (u : CounterUse) (rl : Bool) (c : CounterCalls)
+    (hu : u.dec = true) (hc : c.dec = true ∧ (u.inc && c.inc) = false ∧ (u.load && c.load) = false ∧ (u.reset && c.reset) = false) :
+    apiStep E rv u rl v c = (v + E - 1) % E := by
+  simp [apiStep, wrapStep, hu, hc.1, hc.2.1, hc.2.2.1, hc.2.2.2]
+
+theorem counter_api_reset (E rv v : Nat) (u : CounterUse) (c : CounterCalls)
+    (hu : u.reset = true) (hc : c.reset = true ∧ (u.load && c.load) = false) :
+    apiStep E rv u true v c = rv ∧ apiStep E rv u false v c = rv := by
+  simp [apiStep, wrapStep, hu, hc.1, hc.2]
+
+/-- `scl::Counter(12, 5)` used as a timer (only `dec()` and `reset()` are ever called): idle, dec, dec, idle, reload, dec -/
+example : counterApiRun 4 true ⟨false, true, true, false⟩ true 5 11 5
+    [⟨false, false, false, false, 0⟩, ⟨false, true, false, false, 0⟩, ⟨false, true, false, false, 0⟩, ⟨false, false, false, false, 0⟩]
+      = 3 := by decide
+example : counterApiRun 4 true ⟨false, false, false, false⟩ true 5 11 10
+    [⟨false, false, false, false, 0⟩, ⟨false, false, false, false, 0⟩, ⟨false, false, false, false, 0⟩] = 1 := by decide
+
 /-- flags: `isLast = (value = end-1)`, `isFirst = (value = 0)`, `becomesFirst = (next value = 0)` -/
 theorem counter_flags (c : CounterCfg) (v : Nat) (i : CounterIn) :
     (counterStep c v i).last = (v == i.endM1) ∧ (counterStep c v i).first = (v == 0) ∧
